@@ -388,6 +388,12 @@ pub fn catch<T>(f: impl FnOnce() -> T) -> Result<T, PanicInfo> {
     }
 }
 
+/// A deliberate panic of the harness itself (used to unwind a thread on purpose). The panic hook
+/// stays quiet about it.
+pub fn quiet_panic(msg: &'static str) -> ! {
+    std::panic::resume_unwind(Box::new(msg))
+}
+
 /// Run `f`; a panic inside it becomes a property failure keyed by site.
 pub fn no_panic<T>(what: &str, f: impl FnOnce() -> T) -> Result<T, Fail> {
     match catch(f) {
